@@ -608,6 +608,8 @@ def install():
     Engine._modify = _modify
     from vlib import hreads
     Engine._read = hreads._read
+    Engine._sel = hreads._sel
+    Engine.strategy = 'default'
     Engine._tx = _tx
     Engine._pony_kwargs = _pony_kwargs
     Engine._arg_obj = _arg_obj
@@ -653,7 +655,9 @@ class Gen(object):
         if weights: self.w.update(weights)
         self.invalid_rate = invalid_rate
         self.stale_rate = stale_rate
-        self.next_oid = 1 + max([0] + list(eng.working.objs) + list(eng.committed.objs))
+        self.avoid_conflicts = False
+        self.fresh = 0
+        self.next_oid =1 + max([0] + list(eng.working.objs) + list(eng.committed.objs))
         self.kinds = [k for k, v in self.w.items() if v > 0]
 
     def scalar(self, a, for_key=False):
@@ -664,6 +668,10 @@ class Gen(object):
             dom = (INTS if a.type == 'int' else STRS)
             if a.unique: dom = dom[:4]
         v = r.choice(dom)
+        if self.avoid_conflicts and (a.is_pk or a.unique or for_key):
+            # conflict-free workloads (C23): take a fresh key value
+            self.fresh += 1
+            v = 100 + self.fresh if a.type == 'int' else 'u%d' % self.fresh
         if not a.required and not a.is_pk and r.random() < 0.2: v = None
         if a.required and r.random() < self.invalid_rate * 0.3: v = None
         return v
@@ -836,9 +844,10 @@ def run_history(eng, ops):
     return outs
 
 
-def random_history(eng, rng, n_ops, weights=None, invalid_rate=0.15, stale_rate=0.0, seed_objects=0):
+def random_history(eng, rng, n_ops, weights=None, invalid_rate=0.15, stale_rate=0.0, seed_objects=0, avoid_conflicts=False):
     """generate online and execute; returns the op list executed."""
     g = Gen(rng, eng, weights, invalid_rate, stale_rate)
+    g.avoid_conflicts = avoid_conflicts
     ops = []
     if seed_objects:
         # population phase: valid creations (plus a few links), committed, so that later operations have material
